@@ -160,6 +160,17 @@ func init() {
 		ID:  "C03",
 		New: func() interface{} { return &C03Case{} },
 		Gen: genC03,
+		FromBytes: func(data []byte) interface{} {
+			if len(data) < 3 {
+				return nil
+			}
+			side := "bin"
+			if data[0] == 'c' || data[0] == 'C' {
+				side = "text"
+			}
+			return &C03Case{Side: side, Doc: append([]byte{}, data...), Note: "native-fuzz"}
+		},
+		FuzzSeeds: func() [][]byte { return fuzzSeedDocs(0) },
 		Check: func(ci interface{}, ctx *Ctx) error {
 			c := ci.(*C03Case)
 			cfg := newCfg()
